@@ -111,7 +111,9 @@ def build(job):
         recs = mk_recs(eng, params["shape"])
         assume_strict(eng, recs)
         for r in recs:
-            eng.assume(And([z3.InRe(_s(x), pref) for x in r.all_p], [z3.InRe(_s(x), urisafe) for x in r.all_u]))
+            # URI prefixes are absolute URLs over the URL-safe alphabet (a relative Location is rejected by HTTP clients)
+            eng.assume(And([z3.InRe(_s(x), pref) for x in r.all_p],
+                           [z3.InRe(_s(x), z3.Concat(z3.Re("https://e.org/"), urisafe)) for x in r.all_u]))
         conv = api.Converter([api.Record(**r.kwargs()) for r in recs], delimiter=delim)
         p, i = eng.var("p"), eng.var("i")      # the groups captured by the route for the request '/' p delim i
         # (P, I): the CURIE p+delim+i split at its first delimiter, as everywhere else in the library
